@@ -7,9 +7,11 @@ from cmdline_check import run_cmdline_property, run_tree_groups, merge_cov
 def families(tier):
     if tier == "quick":
         return D.api_variants(D.alt_family(SEED + 70, 32, maxlen=4, budget=5000) + D.group_family(SEED, 4, 3000), SEED) + \
-            D.toggle_family(SEED + 71, 6, maxlen=4, budget=3000) + D.alt_rep_family(SEED + 72, 18, maxlen=4, budget=3000)
+            D.toggle_family(SEED + 71, 6, maxlen=4, budget=3000) + D.alt_rep_family(SEED + 72, 18, maxlen=4, budget=3000) + \
+            D.adj_alt_family(SEED + 73, 9, maxlen=5, budget=4000)
     return D.api_variants(D.alt_family(SEED + 70, 160, maxlen=5, budget=60000) + D.group_family(SEED, 5, 40000), SEED) + \
-        D.toggle_family(SEED + 71, 12, maxlen=5, budget=30000) + D.alt_rep_family(SEED + 72, 36, maxlen=5, budget=30000)
+        D.toggle_family(SEED + 71, 12, maxlen=5, budget=30000) + D.alt_rep_family(SEED + 72, 36, maxlen=5, budget=30000) + \
+        D.adj_alt_family(SEED + 73, 24, maxlen=6, budget=40000)
 
 
 def gen(rnd, d):
